@@ -7,4 +7,5 @@ mkdir -p .bin .gen logs evidence replays
 go build -o .bin/rewrite ./cmd/rewrite
 .bin/rewrite -maporder app,keyper/shutterevents -vos app/app.go -out .gen/overlay-appcheck
 go build -tags verif -overlay .gen/overlay-appcheck/overlay.json -o .bin/appcheck ./cmd/appcheck
+go build -tags verif -o .bin/kprcheck ./cmd/kprcheck
 echo setup ok
